@@ -125,9 +125,19 @@ def lean_obligations(prop):
     """(a) of the verdict: theorems compile, pass the axiom audit, no forbidden constructs"""
     spec = PROPS[prop]
     mods = spec["lean_modules"]
+    problems = []
+    if any(m.endswith(("C17s", "C16s")) for m in mods):
+        # translator tie: regenerate the Generated/*.lean model fragments from /repo's CURRENT source; the theorems of
+        # C17s / C16s are then re-checked against what the code says now
+        try:
+            import static_scopes
+            info = static_scopes.regenerate()
+            for pr in info["lock_problems"] + info["borrow_problems"]:
+                problems.append("translator: " + pr)
+        except Exception as e:  # the translator could not read the source: the obligation is not established
+            problems.append(f"translator failed on the current source: {e!r}")
     ok, out, dt = lake_build(mods + ["driver"])
     obligations = []
-    problems = []
     if not ok:
         errs = [l for l in out.splitlines() if "error" in l][:8]
         problems.append("lake build failed: " + " | ".join(errs))
@@ -172,6 +182,11 @@ def build_harness():
 def setup():
     os.makedirs(WORK, exist_ok=True)
     t = time.time()
+    try:
+        import static_scopes
+        static_scopes.regenerate()
+    except Exception as e:
+        print("SETUP: translator failed:", e)
     ok, out, _ = lake_build(["Cachelito", "driver"] + sorted({m for p in PROPS.values() for m in p["lean_modules"]}))
     print(out[-2000:])
     if not ok:
